@@ -58,6 +58,7 @@ def cmp_connections(before, after, rename=None):
 
 def replay(d):
     import t2grids as T
+    if d.get('op') == 'vacuous': return False, 'vacuous path condition in the harness (not a counterexample)'
     op, a, clause = d['op'], d['args'], d['clause']
     if op == 'fromgeo_reorder':
         import mulgrids
